@@ -270,39 +270,8 @@ def execute(sim, plan, _scratch=None):
                 for kind, rid, fid, detail in storesim.dag_problems(repo, mh, [r for r in mh.order if r in own], per_file=True):
                     sim.fail("per_file_history", ["per_file_history", sig, tag, kind], f"{tag}: {rid}: {detail}")
         # -- the strong local statement, fallbacks detached
-        alone = Repository.open(url)
-        if alone._fallback_repositories:
-            raise RuntimeError("Repository.open unexpectedly attached fallbacks")
-        rich = alone.supports_rich_root()
-        with alone.lock_read(), repo.lock_read():
-            for rid in own:
-                parents = [p for p in mh.revs[rid]["parents"] if repo.has_revision(p.encode())]
-                carried = set()
-                for p in [rid] + parents:
-                    try:
-                        t = alone.revision_tree(p.encode())
-                        ents = [(ie.file_id, ie.revision, ie.kind, ie.parent_id) for _path, ie in t.iter_entries_by_dir()]
-                    except Exception as e:  # noqa: BLE001
-                        what = "own-inventory" if p == rid else "parent-inventory"
-                        sim.fail("local", ["local", sig, tag, what + ":" + type(e).__name__], f"{tag}: with fallbacks detached the {what} {p} of own revision {rid} cannot be read: {type(e).__name__}: {str(e)[:300]} (own revisions {own}, local inventories {sorted(k[0].decode() for k in alone.inventories.keys())})")
-                    if p == rid:
-                        mine = ents
-                    else:
-                        carried.update((f, r) for f, r, _k, _p in ents)
-                need = [(f, r) for f, r, k, par in mine if (f, r) not in carried and not (par is None and not rich)]
-                present = alone.texts.get_parent_map(need)
-                missing = sorted(k for k in need if k not in present)
-                if missing:
-                    sim.fail("local", ["local", sig, tag, "text-missing"], f"{tag}: with fallbacks detached, texts {missing[:4]} that own revision {rid} introduces relative to its parents {parents} are not in the stacked repository")
-                for rec in alone.texts.get_record_stream(need, "unordered", True):
-                    if rec.storage_kind == "absent":
-                        sim.fail("local", ["local", sig, tag, "text-unreadable"], f"{tag}: text {rec.key} of own revision {rid} absent from the stacked repository alone")
-                    try:
-                        rec.get_bytes_as("fulltext")
-                    except Exception as e:  # noqa: BLE001
-                        sim.fail("local", ["local", sig, tag, "text-unreadable:" + type(e).__name__], f"{tag}: text {rec.key} of own revision {rid} cannot be reconstructed without the fallback: {type(e).__name__}: {str(e)[:300]}")
-                if any(not alone.has_revision(p.encode()) for p in parents):
-                    nonlocal_info["split"] = True
+        for what, detail in storesim.stacked_local_problems(url, mh, nonlocal_info):
+            sim.fail("local", ["local", sig, tag, what], f"{tag}: {detail}")
         if nonlocal_info.get("split"):
             sim.probe("own_revision_with_parent_only_in_fallback")
             sim.notes["split"] = True
